@@ -27,7 +27,7 @@ TRUSTED = ['Lean 4.33.0 kernel', 'axioms: propext, Quot.sound, Classical.choice'
            'tools/corr/c19.py (tracing open/os.replace through module globals of aiosmpplib.correlator; crash = BaseException raised '
            'inside the traced call, instance abandoned)', 'C12 for the JSON round trip of the stored messages']
 ASSUMPTIONS = ['process crash, not power loss: data handed to the OS before the rename is what the rename publishes',
-               'time.monotonic keeps running across the restart (same boot); the virtual clock continues',
+               'restart histories: time.monotonic keeps running across the restart (same boot); reboot cases: it starts over, below the stamps in the files',
                'one process per directory']
 EXHAUSTIVE = {'quick': False, 'thorough': False}
 
@@ -339,6 +339,52 @@ def restart_case(rng, fixed=None):
     return Case(line, line, sig, fail, {'op': 'restart', 'hist': hist, 'at': r})
 
 
+def reboot_case(rng, fixed=None):
+    """a restart across a reboot: time.monotonic() of the new process starts over, far below the stamps in the files
+    (uptime before the reboot longer than the time-to-live).  The correlations recorded before must still be found, with
+    the original log_id and extra_data, by a new correlator on the directory - also after it has run its sweeps."""
+    if fixed:
+        n, uptime, after, order = fixed
+    else:
+        n = rng.randrange(1, 5)
+        uptime = rng.choice((200, 5000, 10 ** 6)) * Q
+        after = rng.choice((0, 1, 7, 90)) * Q
+        order = list(range(n))
+        rng.shuffle(order)
+    d1 = tempfile.mkdtemp(prefix='c19r-')
+    fail = None
+    try:
+        a = CorrSim(directory=d1)           # ttl: 15 s for responses, 100 s for receipts
+        try:
+            t = uptime
+            for i in range(n):
+                t += Q
+                a.op_put(t, a.submit(i + 1, 30 + i, 1030 + i))
+                t += Q
+                a.op_hresp(t, a.resp('submitresp', i + 1, 0, 'rb%d' % i))
+        finally:
+            a.close()
+        b = CorrSim(directory=d1)           # the new process after the reboot: its clock starts over
+        try:
+            t = after
+            t += Q
+            b.op_put(t, b.submit(900, 99, 1099))            # any correlator operation runs the sweeps
+            for k, i in enumerate(order):
+                t += Q
+                res = b.op_hdel(t, b.deliver(9200 + k, 'x', receipt=('rb%d' % i, 0)))[2]
+                have = (getattr(res, 'log_id', None), getattr(res, 'extra_data', None))
+                if fail is None and have != ('L%d' % (30 + i), 'L%d' % (1030 + i)):
+                    fail = ('correlation for id rb%d recorded at monotonic time %d s is not found after a reboot (clock at %d s): '
+                            'receipt handed over with log_id %r / extra_data %r' % (i, uptime // Q, t // Q, have[0], have[1]))
+        finally:
+            b.close()
+    finally:
+        shutil.rmtree(d1, ignore_errors=True)
+    line = '# reboot n=%d uptime=%d after=%d' % (n, uptime // Q, after // Q)
+    return Case(line, line, ('reboot', n, uptime // Q, after // Q), fail,
+                {'op': 'reboot', 'n': n, 'uptime': uptime, 'after': after, 'order': order})
+
+
 def file_states(d):
     out = {}
     for f in sorted(os.listdir(d)):
@@ -476,6 +522,8 @@ def generate(rng, tier):
         yield pd_case(rng, rng.randrange(1, 12))
     for _ in range(300 if thorough else 80):
         yield restart_case(rng)
+    for _ in range(60 if thorough else 16):
+        yield reboot_case(rng)
     for _ in range(120 if thorough else 30):
         for c in crash_cases(rng, 40 if thorough else 14):
             yield c
@@ -486,6 +534,8 @@ def replay(inp):
         return Case(inp['line'], '', None, None, inp)
     if inp.get('op') == 'restart':
         return restart_case(None, fixed=(inp['hist'], inp['at']))
+    if inp.get('op') == 'reboot':
+        return reboot_case(None, fixed=(inp['n'], inp['uptime'], inp['after'], inp['order']))
     if inp.get('op') == 'crash':
         cs = crash_cases(None, 50, fixed=(inp['hist'], inp['i'], inp['call'], inp['how']))
         bad = [c for c in cs if c.fail]
